@@ -118,7 +118,7 @@ def case(d):
         # a file that opens with several comments, one of them too long: the header relation must still be a pure shift
         p = family.member_of(d, violating=1.0, ftype="c", opts={"force": ("leading-comments",)}, only=("X01c",))
     else:
-        p = family.member_of(d, prefer=("X01c", "X01", "K03", "E03", "T03b", "T01", "T03", "F06"))
+        p = family.member_of(d, prefer=("X01c", "X01", "K03", "E03", "T03b", "T01", "T03", "F06"), opts={"decorate": True})
     return p, d
 
 
